@@ -9,6 +9,50 @@ def geometries(mini=True):
     return out
 
 
+def amb_geometries():
+    """growth: Type IIS enzymes of the same kind whose recognition site contains ambiguity codes (outside C01's quantifier,
+    inside what the library accepts as a cutter): LpnPI CCDG(10/14), SgrTI CCDS(10/14).  (AspBHI YSCNS and MspJI CNNR are
+    left out: their sites occur every few letters, a plasmid with exactly two of them is a curiosity.)"""
+    loader.load()
+    from Bio.Restriction import LpnPI, SgrTI
+    return [(classes.enz_spec(e), gen.geometry_of(e)) for e in (LpnPI, SgrTI)]
+
+
+def amb_members(rng, per):
+    """(class spec, record, marks, kind) over the ambiguous-site enzymes: members of the generic and of user part classes,
+    and look-alikes whose downstream 'site' is spelled from the un-complemented letter class (not a site of the enzyme)"""
+    out = []
+    for espec, G in amb_geometries():
+        for role in ("module", "vector"):
+            for _ in range(per):
+                su, sd = rnd_signature(G.ovh, rng), rnd_signature(G.ovh, rng)
+                up, down = sig_instance(su, rng), sig_instance(sd, rng)
+                s = None
+                for _try in range(20):
+                    s = G.module(up, gen.rnd(rng.randint(2, 7), rng, "AT"), down, gen.rnd(rng.randint(0, 5), rng, "AT"), rng) if role == "module" \
+                        else G.vector(down, up, gen.rnd(rng.randint(0, 4), rng, "AT"), gen.rnd(rng.randint(2, 6), rng, "AT"), rng)
+                    if s:
+                        break
+                if not s:
+                    continue
+                for cspec in ({"generic": role, "enz": espec}, {"part": role, "enz": espec, "sig": [su, sd]}):
+                    out.append((cspec, s, list(range(0, len(G.site) + G.off + G.ovh + 2)), "member"))
+                # look-alike: the reverse site replaced by the reversed-but-not-complemented spelling of the ambiguous letters
+                fwd = G.inst(rng)
+                true_rc = dna.rc(G.site)
+                rev = G.site[::-1]
+                wrong = "".join(rng.choice(sorted(set(gen.IUPAC[rev[j]]) - set(gen.IUPAC[true_rc[j]])))
+                                if (rev[j] not in "ACGT" and set(gen.IUPAC[rev[j]]) - set(gen.IUPAC[true_rc[j]])) else rng.choice(gen.IUPAC[true_rc[j]])
+                                for j in range(len(G.site)))
+                if "?" not in wrong and gen.count_sites(wrong, G.site) == (0, 0):
+                    x, y = gen.rnd(G.off, rng, "AT"), gen.rnd(G.off, rng, "AT")
+                    t, b = gen.rnd(4, rng, "AT"), gen.rnd(3, rng, "AT")
+                    la = fwd + x + up + t + down + y + wrong + b if role == "module" else down + y + wrong + t + fwd + x + up + b
+                    for cspec in ({"generic": role, "enz": espec}, {"part": role, "enz": espec, "sig": [su, sd]}):
+                        out.append((cspec, la, [0], "lookalike"))
+    return out
+
+
 def rnd_signature(k, rng):
     mode = rng.random()
     if mode < 0.15:
